@@ -125,6 +125,12 @@ goal		:  initlex sect1 sect1end sect2 initforrule
 			pat = cclinit();
 			cclnegate( pat );
 
+			/* The default rule matches any byte, newline
+			 * included: it has to be counted for yylineno.
+			 */
+			if ( ccl_has_nl[pat] )
+				rule_has_nl[num_rules] = true;
+
 			def_rule = mkstate( -pat );
 
 			/* Remember the number of the default rule so we
@@ -739,8 +745,11 @@ singleton	:  singleton '*'
 
 			++rulelen;
 
-            if (sf_dot_all())
+            if (sf_dot_all()) {
+                if (ccl_has_nl[cclany])
+                    rule_has_nl[num_rules] = true;
                 $$ = mkstate( -cclany );
+            }
             else
                 $$ = mkstate( -ccldot );
 			}
